@@ -32,6 +32,15 @@ type Event struct {
 	Clk    *Term
 	Site   string
 	Aux    []*Event
+	PVal   Value    // pstore: the (concrete-shaped) value stored into a tracked plain location
+	Ident  string   // pstore: pass-independent identity (thread name | site | occurrence)
+	CandID []string // pload: identities of the stores this load may read from ("" = the location's initial zero value)
+}
+
+// storeRec: a store to a tracked reference-valued location as remembered from the previous exploration pass
+type storeRec struct {
+	ident, loc string
+	val        Value
 }
 
 type ThreadRec struct {
@@ -48,18 +57,43 @@ type ThreadRec struct {
 	site    string
 	truncated bool
 	leafPCs   []*Term // path conditions of paths cut at the unroll bound
+	parent    *ThreadRec
+	stable    string // pass-independent name: parent's name > spawn site # occurrence
+}
+
+// plainAcc: the plain (non-atomic) accesses of one thread to one memory location, as stamps (number of events
+// emitted before the access); used to CHECK the modelling assumption that plain memory is not used to communicate
+// between threads after a spawn (threads run on private copies of the spawner's heap).
+type plainAcc struct {
+	min, max int
+	site     string
 }
 
 type ThreadCtx struct {
 	rec    *ThreadRec
 	events []*Event
 	held   map[string][]*Event
+	counts map[string]int // per-path occurrence counters (allocation / spawn / store sites): pass-independent names
+}
+
+func (t *ThreadCtx) bump(key string) int {
+	if t.counts == nil {
+		t.counts = map[string]int{}
+	}
+	t.counts[key]++
+	return t.counts[key]
 }
 
 func (t *ThreadCtx) clone() *ThreadCtx {
 	n := &ThreadCtx{rec: t.rec, events: append([]*Event(nil), t.events...), held: map[string][]*Event{}}
 	for k, v := range t.held {
 		n.held[k] = append([]*Event(nil), v...)
+	}
+	if t.counts != nil {
+		n.counts = map[string]int{}
+		for k, v := range t.counts {
+			n.counts[k] = v
+		}
 	}
 	return n
 }
@@ -75,6 +109,17 @@ func mergeThreads(a, b *ThreadCtx, ca, cb *Term) (*ThreadCtx, bool) {
 		i++
 	}
 	n := &ThreadCtx{rec: a.rec, held: map[string][]*Event{}}
+	if a.counts != nil || b.counts != nil {
+		n.counts = map[string]int{}
+		for k, v := range a.counts {
+			n.counts[k] = v
+		}
+		for k, v := range b.counts {
+			if v > n.counts[k] {
+				n.counts[k] = v
+			}
+		}
+	}
 	n.events = append(n.events, a.events...)
 	n.events = append(n.events, b.events[i:]...)
 	// held locks must agree (same lock events); otherwise refuse the merge
@@ -132,6 +177,9 @@ type ConcCtx struct {
 	truncs   [][2]interface{} // (path condition, last event) of every path cut at the unroll bound
 	phiPrefix []*Term
 	stuck    *Term
+	pstores  map[string]map[int]*plainAcc // loc -> thread id -> stores
+	ploads   map[string]map[int]*plainAcc
+	lockeys  map[string]string // concrete location -> pass-independent track key
 }
 
 func newConc(e *Exec) *ConcCtx {
@@ -155,7 +203,7 @@ func (c *ConcCtx) emit(st *State, kind, loc, site string) *Event {
 // ---------- running threads ----------
 
 func (c *ConcCtx) runMain(e *Exec, st *State, fn *ssa.Function) {
-	main := &ThreadRec{id: 0, name: "main", guard: True, fn: &Func{Fn: fn}, snap: st, all: map[int]*Event{}}
+	main := &ThreadRec{id: 0, name: "main", stable: "main", guard: True, fn: &Func{Fn: fn}, snap: st, all: map[int]*Event{}}
 	c.threads = append(c.threads, main)
 	c.queue = append(c.queue, main)
 	for len(c.queue) > 0 {
@@ -207,7 +255,8 @@ func (c *ConcCtx) spawn(e *Exec, st *State, ct callTarget, site string) {
 	if f, ok := ct.fn.(*Func); ok && f.Fn != nil {
 		name += ":" + f.Fn.Name()
 	}
-	t := &ThreadRec{id: len(c.threads), name: name, spawnEv: ev, guard: st.PCTerm(), fn: ct.fn, args: ct.args, snap: snap, all: map[int]*Event{}, site: site}
+	t := &ThreadRec{id: len(c.threads), name: name, spawnEv: ev, guard: st.PCTerm(), fn: ct.fn, args: ct.args, snap: snap, all: map[int]*Event{}, site: site, parent: st.Thread.rec}
+	t.stable = fmt.Sprintf("%s>%s#%d", st.Thread.rec.stable, site, st.Thread.bump("spawn@"+site))
 	c.threads = append(c.threads, t)
 	c.queue = append(c.queue, t)
 }
@@ -564,9 +613,376 @@ func (c *ConcCtx) doneChan(e *Exec, st *State, ctxPtr Ptr) ChanRef {
 
 // ---------- shared plain memory (not modelled; threads inherit the spawner's heap snapshot) ----------
 
-func (c *ConcCtx) sharedStore(e *Exec, st *State, p Ptr, v Value, site string) bool { return false }
-func (c *ConcCtx) sharedLoad(e *Exec, st *State, p Ptr, t types.Type, site string) (Value, bool) {
-	return nil, false
+func (c *ConcCtx) notePlain(m *map[string]map[int]*plainAcc, e *Exec, st *State, p Ptr, site string) {
+	if st.Thread == nil {
+		return
+	}
+	if c.lockeys == nil {
+		c.lockeys = map[string]string{}
+	}
+	c.lockeys[locKey(p)] = c.trackKey(e, p)
+	if *m == nil {
+		*m = map[string]map[int]*plainAcc{}
+	}
+	loc := locKey(p)
+	per := (*m)[loc]
+	if per == nil {
+		per = map[int]*plainAcc{}
+		(*m)[loc] = per
+	}
+	stamp := len(c.events)
+	a := per[st.Thread.rec.id]
+	if a == nil {
+		per[st.Thread.rec.id] = &plainAcc{min: stamp, max: stamp, site: site}
+		return
+	}
+	if stamp > a.max {
+		a.max = stamp
+		a.site = site
+	}
+}
+
+// trackKey: a pass-independent name for a plain memory location: the source position of the allocation of its
+// object plus the field/index path ("" for objects not created by an Alloc instruction: never tracked).
+func (c *ConcCtx) trackKey(e *Exec, p Ptr) string {
+	site := e.objSite[p.Obj]
+	if site == "" {
+		return ""
+	}
+	return site + "#" + p.Path
+}
+
+func (c *ConcCtx) isTracked(e *Exec, p Ptr) bool {
+	if len(e.track) == 0 {
+		return false
+	}
+	key := c.trackKey(e, p)
+	if key == "" {
+		return false
+	}
+	if e.track[key] {
+		return true
+	}
+	site := e.objSite[p.Obj]
+	for k := range e.track {
+		if strings.HasPrefix(k, site+"#") {
+			kp := k[len(site)+1:]
+			if strings.HasPrefix(kp, p.Path+"/") || strings.HasPrefix(p.Path, kp+"/") || p.Path == "" || kp == "" {
+				fail("access at %s overlaps the tracked shared location %s (whole-value access to a shared struct is not modelled)", key, k)
+			}
+		}
+	}
+	return false
+}
+
+func zeroOfSort(srt Sort) *Term {
+	switch srt.K {
+	case SBool:
+		return False
+	case SBV:
+		return BVConst(0, srt.W)
+	case SFP:
+		return FPConst(0)
+	case SString:
+		return StrConst("")
+	case SInt:
+		return IntConst(0)
+	case SReal:
+		return RealConst("0.0")
+	}
+	return nil
+}
+
+// sharedStore: a store to a TRACKED plain location (one through which threads were seen to communicate in the
+// previous pass) is an event carrying its value; the thread's private copy is updated as well. Term-valued
+// locations (numbers, booleans, strings) are sequentially consistent cells exactly like atomics; reference-valued
+// ones (channels, pointers, functions ...) carry the concrete-shaped value and are chosen by the loads.
+func (c *ConcCtx) sharedStore(e *Exec, st *State, p Ptr, v Value, site string) bool {
+	if st.Thread == nil {
+		return false
+	}
+	if c.isTracked(e, p) {
+		if t, ok := v.(*Term); ok {
+			loc := "a:pl:" + locKey(p)
+			if _, ok := c.inits[loc]; !ok {
+				z := zeroOfSort(t.Sort)
+				if z == nil {
+					fail("shared plain location of unsupported sort at %s", site)
+				}
+				c.inits[loc], c.sorts[loc] = z, t.Sort
+			}
+			ev := c.emit(st, "store", loc, site)
+			ev.Write = t
+			return false
+		}
+		ev := c.emit(st, "pstore", "p:"+locKey(p), site)
+		ev.PVal = v
+		ev.Ident = fmt.Sprintf("%s|%s|%d", st.Thread.rec.stable, site, st.Thread.bump("pstore@"+site))
+		return false
+	}
+	c.notePlain(&c.pstores, e, st, p, site)
+	return false
+}
+
+func termSortOf(t types.Type) (Sort, bool) {
+	b, ok := t.Underlying().(*types.Basic)
+	if !ok {
+		return Sort{}, false
+	}
+	switch {
+	case b.Info()&types.IsBoolean != 0:
+		return BoolSort, true
+	case b.Info()&types.IsString != 0:
+		return StringSort, true
+	case b.Info()&types.IsFloat != 0:
+		return Sort{}, false
+	case b.Info()&types.IsInteger != 0:
+		if mathInts {
+			return Sort{}, false
+		}
+		switch b.Kind() {
+		case types.Int8, types.Uint8:
+			return BV(8), true
+		case types.Int16, types.Uint16:
+			return BV(16), true
+		case types.Int32, types.Uint32:
+			return BV(32), true
+		default:
+			return BV(64), true
+		}
+	}
+	return Sort{}, false
+}
+
+// sharedLoad: a load from a tracked plain location. Term-valued: a fresh value constrained by read-from (as for
+// atomics). Reference-valued: forks over the stores it may read from (identities known from the previous pass, those
+// discovered so far in this pass, the thread's own ones on this path, or the initial zero value); the choice is a
+// path-condition literal and the read-from constraint is added when the encoding is built. Identities discovered
+// only later are detected in missedCandidates and lead to another pass.
+func (c *ConcCtx) sharedLoad(e *Exec, st *State, p Ptr, t types.Type, site string, bind func(*State, Value)) ([]*State, bool) {
+	if st.Thread == nil {
+		return nil, false
+	}
+	if t == nil || !c.isTracked(e, p) {
+		c.notePlain(&c.ploads, e, st, p, site)
+		return nil, false
+	}
+	if srt, ok := termSortOf(t); ok {
+		loc := "a:pl:" + locKey(p)
+		if _, ok := c.inits[loc]; !ok {
+			c.inits[loc], c.sorts[loc] = zeroOfSort(srt), srt
+		}
+		if c.sorts[loc] != srt {
+			fail("shared plain location accessed with two sorts at %s", site)
+		}
+		ev := c.emit(st, "load", loc, site)
+		ev.Read = e.fresh("rd", srt)
+		bind(st, ev.Read)
+		return []*State{st}, true
+	}
+	loc := "p:" + locKey(p)
+	ids := []string{""}
+	vals := []Value{e.zero(t)}
+	seen := map[string]bool{}
+	addC := func(id string, v Value) {
+		if !seen[id] {
+			seen[id] = true
+			ids = append(ids, id)
+			vals = append(vals, v)
+		}
+	}
+	ownPrefix := st.Thread.rec.stable + "|"
+	pcset := map[*Term]bool{}
+	for _, t := range st.PC {
+		pcset[t] = true
+	}
+	holds := func(g *Term) bool { // the guard of an own earlier event certainly holds on this path
+		if g.IsTrue() || pcset[g] {
+			return true
+		}
+		if g.Op == "and" {
+			for _, a := range g.Args {
+				if !pcset[a] {
+					return false
+				}
+			}
+			return true
+		}
+		return false
+	}
+	for _, ev := range st.Thread.events {
+		if ev.Kind == "pstore" && ev.Loc == loc {
+			if holds(ev.Guard) {
+				// this own store certainly precedes the load: the initial value and earlier own stores are overwritten
+				ids, vals, seen = nil, nil, map[string]bool{}
+			}
+			addC(ev.Ident, ev.PVal)
+		}
+	}
+	for _, ev := range c.events {
+		if ev.Kind == "pstore" && ev.Loc == loc && ev.Thread != st.Thread.rec.id {
+			addC(ev.Ident, ev.PVal)
+		}
+	}
+	for _, r := range prevStores[loc] {
+		if !strings.HasPrefix(r.ident, ownPrefix) {
+			addC(r.ident, r.val)
+		}
+	}
+	r := c.emit(st, "pload", loc, site)
+	r.CandID = ids
+	r.Val = Var(fmt.Sprintf("from!%d", r.ID), IntSort)
+	if os.Getenv("VERIF_HAZARD") != "" {
+		fmt.Fprintf(os.Stderr, "pload #%d %s thread %s at %s: candidates %q\n", r.ID, loc, st.Thread.rec.name, site, ids)
+	}
+	var out []*State
+	for k := range ids {
+		s := st
+		if k < len(ids)-1 {
+			s = st.Clone()
+		}
+		s.Assume(Eq(r.Val, IntConst(int64(k))))
+		bind(s, vals[k])
+		out = append(out, s)
+	}
+	e.forks += len(ids) - 1
+	return out, true
+}
+
+// prevStores: the reference-valued stores of the previous exploration pass, per location (object ids are
+// pass-independent in tracking passes, see Exec.newObj)
+var prevStores = map[string][]storeRec{}
+
+// encodePlain: read-from constraints of the tracked reference-valued locations (sequentially consistent, like
+// atomics, but the value is selected by the load's choice variable because it is not a term).
+func (c *ConcCtx) encodePlain(loc string, evs []*Event, add func(*Term)) {
+	var writes []*Event
+	for _, ev := range evs {
+		if ev.Kind == "pstore" {
+			writes = append(writes, ev)
+		}
+	}
+	for _, w := range writes {
+		for _, o := range evs {
+			if o != w && o.Thread != w.Thread && !(o.Kind == "pstore" && o.ID < w.ID) {
+				add(Not(Eq(w.Clk, o.Clk)))
+			}
+		}
+	}
+	for _, r := range evs {
+		if r.Kind != "pload" {
+			continue
+		}
+		var opts []*Term
+		for k, id := range r.CandID {
+			sel := Eq(r.Val, IntConst(int64(k)))
+			if id == "" {
+				conj := []*Term{sel}
+				for _, w2 := range writes {
+					conj = append(conj, Or(Not(c.gd(w2)), lt(r.Clk, w2.Clk)))
+				}
+				opts = append(opts, And(conj...))
+				continue
+			}
+			for _, w := range writes {
+				if w.Ident != id {
+					continue
+				}
+				conj := []*Term{sel, c.gd(w), lt(w.Clk, r.Clk)}
+				for _, w2 := range writes {
+					if w2 != w {
+						conj = append(conj, Or(Not(c.gd(w2)), lt(w2.Clk, w.Clk), lt(r.Clk, w2.Clk)))
+					}
+				}
+				opts = append(opts, And(conj...))
+			}
+		}
+		add(Implies(c.gd(r), Or(opts...)))
+	}
+}
+
+// missedCandidates: a tracked load that was explored before a store of another thread to the same location was known
+// could not choose it; unless that store necessarily comes after the load (its thread was spawned by the loading
+// thread after the load), executions would be lost. The caller runs another pass with the stores of this one.
+func (c *ConcCtx) missedCandidates() []string {
+	var out []string
+	for _, r := range c.events {
+		if r.Kind != "pload" {
+			continue
+		}
+		have := map[string]bool{}
+		for _, id := range r.CandID {
+			have[id] = true
+		}
+		for _, w := range c.events {
+			if w.Kind != "pstore" || w.Loc != r.Loc || w.Thread == r.Thread || have[w.Ident] {
+				continue
+			}
+			if sp := spawnOnLineage(c.threads[r.Thread], c.threads[w.Thread]); sp >= r.ID {
+				continue
+			}
+			out = append(out, fmt.Sprintf("load at %s (thread %s) was explored before the store at %s (thread %s) was known", r.Site, c.threads[r.Thread].name, w.Site, c.threads[w.Thread].name))
+		}
+	}
+	return out
+}
+
+// rememberStores: hands this pass's reference-valued stores to the next pass.
+func (c *ConcCtx) rememberStores() {
+	prevStores = map[string][]storeRec{}
+	for _, w := range c.events {
+		if w.Kind == "pstore" {
+			prevStores[w.Loc] = append(prevStores[w.Loc], storeRec{w.Ident, w.Loc, w.PVal})
+		}
+	}
+}
+
+// spawnOnLineage: the ID of the spawn event executed by ancestor anc on the way to thread t (-1: not an ancestor).
+func spawnOnLineage(anc, t *ThreadRec) int {
+	for x := t; x != nil && x.parent != nil; x = x.parent {
+		if x.parent == anc {
+			return x.spawnEv.ID
+		}
+	}
+	return -1
+}
+
+// plainHazards lists the locations through which a thread could observe a plain store of ANOTHER thread that is
+// not part of its heap snapshot (the store is not by an ancestor before the spawn, and the load is not by an
+// ancestor before it spawned the storing thread). Such communication is outside the model: the harness result is
+// then inconclusive rather than trusted.
+func (c *ConcCtx) plainHazards() (out []string, keys map[string]bool, untrackable bool) {
+	keys = map[string]bool{}
+	var locs []string
+	for loc := range c.pstores {
+		locs = append(locs, loc)
+	}
+	sort.Strings(locs)
+	for _, loc := range locs {
+		lds := c.ploads[loc]
+		for a, sa := range c.pstores[loc] {
+			for b, lb := range lds {
+				if a == b {
+					continue
+				}
+				A, B := c.threads[a], c.threads[b]
+				if sp := spawnOnLineage(A, B); sp >= 0 && sa.max <= sp {
+					continue // stored before the spawn: part of B's snapshot
+				}
+				if sp := spawnOnLineage(B, A); sp >= 0 && lb.max <= sp {
+					continue // loaded before the storing thread existed
+				}
+				out = append(out, fmt.Sprintf("%s: stored by thread %s at %s, loaded by thread %s at %s", loc, A.name, sa.site, B.name, lb.site))
+				if k := c.lockeys[loc]; k != "" {
+					keys[k] = true
+				} else {
+					untrackable = true
+				}
+			}
+		}
+	}
+	sort.Strings(out)
+	return
 }
 
 // ---------- encoding ----------
@@ -702,6 +1118,8 @@ func (c *ConcCtx) build(e *Exec) {
 		switch loc[0] {
 		case 'a':
 			c.encodeAtomic(loc, evs, add)
+		case 'p':
+			c.encodePlain(loc, evs, add)
 		case 'm':
 			c.encodeMutex(evs, add)
 		case 'w':
@@ -1324,6 +1742,8 @@ func (c *ConcCtx) buildPrefix(e *Exec) {
 		switch loc[0] {
 		case 'a':
 			c.encodeAtomic(loc, byLoc[loc], add)
+		case 'p':
+			c.encodePlain(loc, byLoc[loc], add)
 		case 'm':
 			c.encodeMutex(byLoc[loc], add)
 		case 'w':
